@@ -3,11 +3,11 @@ import itertools
 
 RULE = ("(a) _fill_absent_candles on intervals of 1..300 minutes with generated presence masks (all 2^L-1 non-empty masks "
         "exhaustively for L<=9, Hypothesis masks beyond, forced patterns: missing at start / middle / end / all but one) "
-        "and distinct OHLCV per provided candle, given in ascending order; (b) op-sequence model test of the candle store "
+        "and distinct OHLCV per provided candle, given in ascending order, some minutes delivered twice (then either copy may be kept); (b) op-sequence model test of the candle store "
         "(add_candle for 1m and a 5m timeframe, batch_add_candle, add_multiple_1m_candles) against a dict model keyed by "
         "timestamp: ops are new / repeated-last / older-known (any stored position) / older-unknown; (c) research.backtest "
         "called with first-two-candle spacings != 60000 ms (on the first or the second route) must raise ValueError and "
-        "with 60000 must not. distinct = digest of the mask / op list / spacing; non-trivial = mask has both present and "
+        "with 60000 must not; the badly spaced series may also belong to a symbol that is only observed through a data route. distinct = digest of the mask / op list / spacing; non-trivial = mask has both present and "
         "missing minutes, history replaces a non-last row, or spacing != 60000.")
 ASSUMPTIONS = [
     "provided candles are passed in ascending timestamp order and lie inside the requested interval (every caller passes chronological exchange batches)",
@@ -25,9 +25,9 @@ def fill_case(L, present, start):
     from jesse.exceptions import CandleNotFoundInExchange
     vios = []
     prov = []
-    for k in present:
-        base = 100.0 + k
-        prov.append(dict(id=f'id{k}', exchange='VfEx', symbol='BTC-USDT', timeframe='1m', timestamp=start + k * MIN,
+    for j, k in enumerate(present):
+        base = 100.0 + k + (0.01 * j if present.count(k) > 1 else 0.0)  # a minute delivered twice: two different candles
+        prov.append(dict(id=f'id{k}_{j}' if present.count(k) > 1 else f'id{k}', exchange='VfEx', symbol='BTC-USDT', timeframe='1m', timestamp=start + k * MIN,
                          open=base + 0.1, close=base + 0.2, high=base + 0.7, low=base - 0.3, volume=10.0 + k))
     snapshot = [dict(c) for c in prov]
     end = start + (L - 1) * MIN
@@ -55,9 +55,9 @@ def fill_case(L, present, start):
             vios.append(('C20:fill:timestamp-order', f'row {i} has ts offset {(c["timestamp"] - start) / MIN}, present={present}'))
             break
         if i in pset:
-            want = snapshot[present.index(i)]
-            if {k: c[k] for k in want} != want:
-                vios.append(('C20:fill:provided-candle-changed', f'minute {i}: {c} vs {want}'))
+            wants = [snapshot[j] for j, k in enumerate(present) if k == i]  # several if the minute was delivered more than once
+            if not any({k: c.get(k) for k in want} == want for want in wants):
+                vios.append(('C20:fill:provided-candle-changed' + (':duplicate-minute' if len(wants) > 1 else ''), f'minute {i}: {c} vs {wants}'))
         else:
             ref = prev_close if prev_close is not None and any(p < i for p in present) else first_open
             kind = 'after-known' if any(p < i for p in present) else 'before-first'
@@ -217,7 +217,12 @@ def spacing_case(spacing_ms, which_route, fast, only_first=False):
     from vf.drive import session
     from vf.gen import candles as gc
     rows = {s: gc.prng_rows(3 + i, 30, 0.5, 400) for i, s in enumerate(['BTC-USDT', 'ETH-USDT'])}
-    bad = ['BTC-USDT', 'ETH-USDT'][which_route]
+    data = []
+    if which_route == 2:
+        # a symbol that is only observed through a data route: its candles are handed to the store like the others
+        rows['LTC-USDT'] = gc.prng_rows(7, 30, 0.5, 400)
+        data = [dict(symbol='LTC-USDT', timeframe='5m')]
+    bad = ['BTC-USDT', 'ETH-USDT', 'LTC-USDT'][which_route]
     if spacing_ms != MIN and only_first:
         rows[bad][0][0] = rows[bad][1][0] - spacing_ms  # only the first two candles are badly spaced; the rest is minute by minute
     elif spacing_ms != MIN:
@@ -225,12 +230,12 @@ def spacing_case(spacing_ms, which_route, fast, only_first=False):
             r[0] = rows[bad][0][0] + i * spacing_ms if i else r[0]
     script = dict(rows=[{'act': 'none'}], tick=0.5, unit=0.1)
     spec = dict(cfg=dict(type='futures', fee=0.0, balance=10000.0, leverage=2, mode='cross', warm_up=0),
-                routes=[dict(symbol=s, timeframe='1m') for s in rows], data=[], candles=rows, warmup=None,
-                scripts={s: script for s in rows}, fast=fast)
+                routes=[dict(symbol=s, timeframe='1m') for s in rows if s != 'LTC-USDT'], data=data, candles=rows, warmup=None,
+                scripts={s: script for s in rows if s != 'LTC-USDT'}, fast=fast)
     r = session.run(spec, obs='off')
     err = r['error']['type'] if r['error'] else None
     if spacing_ms != MIN and err != 'ValueError':
-        return [('C20:backtest:bad-spacing-accepted' + ('' if spacing_ms > MIN else ':below-one-minute') + (':second-route' if which_route else ''),
+        return [('C20:backtest:bad-spacing-accepted' + ('' if spacing_ms > MIN else ':below-one-minute') + {0: '', 1: ':second-route', 2: ':data-only-symbol'}[which_route],
                  f'research.backtest accepted candles whose first two timestamps are {spacing_ms} ms apart on {bad} (error={err})')]
     if spacing_ms == MIN and err is not None:
         return [(f'C20:backtest:valid-spacing-raised-{err}', str(r['error']['msg'])[:300])]
@@ -273,11 +278,21 @@ def run_shard(acc, shard, nshards, seed, tier):
     @st.composite
     def masks(draw):
         L = draw(st.integers(1, 300))
-        style = draw(st.sampled_from(['random', 'start', 'middle', 'end', 'one', 'sparse']))
+        style = draw(st.sampled_from(['random', 'start', 'middle', 'end', 'one', 'sparse', 'dup', 'dup-full']))
         if style == 'random':
             present = sorted(set(draw(st.lists(st.integers(0, L - 1), min_size=1, max_size=L))))
         elif style == 'one':
             present = [draw(st.integers(0, L - 1))]
+        elif style in ('dup', 'dup-full'):
+            # some minutes delivered twice (exchanges do that at batch seams); 'dup-full': as many entries as minutes, first and
+            # last minute present, one minute twice and another absent
+            if style == 'dup-full' and L >= 3:
+                twice = draw(st.integers(0, L - 1))
+                absent = draw(st.integers(1, L - 2).filter(lambda x: x != twice)) if L > 3 or twice != 1 else None
+                present = sorted([i for i in range(L) if i != absent] + [twice])
+            else:
+                base = sorted(set(draw(st.lists(st.integers(0, L - 1), min_size=1, max_size=min(L, 12)))))
+                present = sorted(base + draw(st.lists(st.sampled_from(base), min_size=1, max_size=3)))
         elif style == 'sparse':
             present = sorted(set(draw(st.lists(st.integers(0, L - 1), min_size=1, max_size=5))))
         else:
@@ -289,7 +304,7 @@ def run_shard(acc, shard, nshards, seed, tier):
 
     def chk_fill(c):
         vios = fill_case(c['L'], c['present'], T0)
-        return dict(key=c, nontrivial=0 < len(c['present']) < c['L'], classes=['fill:' + c['style']],
+        return dict(key=c, nontrivial=0 < len(set(c['present'])) < c['L'] or len(set(c['present'])) < len(c['present']), classes=['fill:' + c['style']],
                     sample=c if c['L'] < 15 else None, violations=vios, sub='fill-hypothesis')
     runner.hyp_search(acc, masks(), chk_fill, 150 if tier == 'quick' else 3000, seed, tier, known=known)
 
@@ -314,7 +329,7 @@ def run_shard(acc, shard, nshards, seed, tier):
                       describe=lambda ops: dict(kind='store', ops=ops))
 
     spacings = [MIN, 0, 1, 30_000, 59_999, 60_001, 120_000, 300_000, -60_000, 3_600_000]
-    combos = [(s, w, f, o) for s in spacings for w in (0, 1) for f in (False, True) for o in (False, True)]
+    combos = [(s, w, f, o) for s in spacings for w in (0, 1, 2) for f in (False, True) for o in (False, True)]
     for i, (s, w, f, o) in enumerate(combos):
         if i % nshards != shard:
             continue
@@ -323,4 +338,4 @@ def run_shard(acc, shard, nshards, seed, tier):
                  sample=dict(kind='spacing', spacing_ms=s, which_route=w, fast=f, only_first=o) if i % 7 == 0 else None)
         for sig, msg in vios:
             acc.violation(sig, msg, dict(kind='spacing', spacing_ms=s, which_route=w, fast=f, only_first=o))
-    acc.mark_exhaustive('backtest-spacing', f'{len(spacings)} spacings x first/second route x both simulators x (all candles / only the leading pair badly spaced)')
+    acc.mark_exhaustive('backtest-spacing', f'{len(spacings)} spacings x first route / second route / data-only symbol x both simulators x (all candles / only the leading pair badly spaced)')
